@@ -51,12 +51,13 @@ CFG = dict(
     casesv=c15_casesv,
     rule=("every handler script of <= 2 actions (thorough: 3) over a 15-symbol alphabet {header-map only, WriteHeader 200/404/500/599, "
           "body by Write / io.Copy(strings.Reader) / io.Copy(file, 9 KiB), Flush(), FlushError(), Store.Error404 / Error500 / "
-          "Redirect(302) / Respond200 / RespondJson} optionally ended by a panic: all 25 value kinds behind prefixes of <= 1 action, 7 "
+          "Redirect(302) / Respond200 / RespondJson} optionally ended by a panic: all 28 value kinds behind prefixes of <= 1 action, 8 "
           "core kinds behind every prefix (kinds: string, error, int, struct, slice, map, nil, typed nil pointer whose Error() "
           "dereferences, non-nil values whose Error / String / MarshalText / MarshalJSON / Format / LogValue panic, errors wrapping "
           "http.ErrAbortHandler via %w and errors.Join, typed nil error whose Unwrap() panics, genuine runtime.Error values (nil map "
-          "write, index out of range, nil dereference, divide by zero), chan, func, a 1 MiB string, invalid UTF-8 text) x Nano/Text/JSON "
-          "handler (at Info with addSource and colorful each off/on, rotating) at Info, through a real HTTP server and by direct ServeHTTP (quick: both modes on one handler per script, rotating, "
+          "write, index out of range, nil dereference, divide by zero), chan, func, a 1 MiB and a 64 KiB string, an error with a 40 KiB Error(), a panic 150 frames deep (stack trace > 16 KiB), invalid UTF-8 text) x Nano/Text/JSON "
+          "handler (at Info with addSource and colorful each off/on, rotating; at every threshold the Relay of a Logger obtained by "
+          "New, With(..), WithGroup(..) and With.WithGroup.With, rotating - the derived attributes and group must be on every record) at Info, through a real HTTP server and by direct ServeHTTP (quick: both modes on one handler per script, rotating, "
           "one mode on the other two; thorough: both on all); scripts of <= 1 action (+ core panic) at thresholds "
           "Debug/Warn/Error/Fatal; seeded random scripts of <= 9 actions with any code 200..599 incl. repeated WriteHeader; methods "
           "GET/POST/PUT/DELETE/PATCH/HEAD/OPTIONS; matched and unmatched routes; 1..64 requests in flight per batch; "
@@ -92,7 +93,7 @@ CFG["manifest"] = dict(
           "C15_needs_total_render / C15_flush_old_refuted / C15_check_accepts_model hold for every handler script, every panic value other than http.ErrAbortHandler, every request and "
           "every interleaving of the record streams of requests with distinct ids, under the explicit assumption that the log handler "
           "renders the panic value without panicking. Tie: the real Mux + Logger.Relay with the three handlers is driven through a real "
-          "HTTP server and direct ServeHTTP calls under the race detector with scripted handlers (25 kinds of panic values incl. wrapped "
+          "HTTP server and direct ServeHTTP calls under the race detector with scripted handlers (28 kinds of panic values incl. wrapped "
           "ErrAbortHandler, typed nils and runtime errors; io.Copy bodies, Flush, the Store helpers; 1-64 requests in flight); the status/body the client received and the decoded "
           "records of each request are judged by the extracted specification and compared with the model."),
     note=("Trusted: Coq kernel; the reading of net/http and defer/recover in Model/Relay.v; extraction + OCaml glue (cross-checked by "
